@@ -45,21 +45,59 @@ Theorem C02_changed_implies_logged :
 Proof. exact changed_implies_logged. Qed.
 Print Assumptions C02_changed_implies_logged.
 
-(* the static tie: the callers of the three write wrappers found in the source are
-   exactly the three operations of the model *)
+(* ---- one call of SaveAutofixChanges with faults ([save_env e]: the exclusive create,
+   the write, the stat of the original, the chmod of the temporary file or the rename may
+   fail, per file); [save] above is [save_env no_faults] ---- *)
+
+(* whatever fails, no temporary file is left behind *)
+Theorem C02_no_tmp_left_faults : forall e o ls, tmp_left [] (fst (save_env e o ls)) = [].
+Proof. exact no_tmp_left_faults. Qed.
+Print Assumptions C02_no_tmp_left_faults.
+
+(* if the temporary file cannot be created exclusively (it exists already), nothing is touched *)
+Theorem C02_create_fails_untouched :
+  forall e f c, e_tmp_exists e (f ++ tmp_suffix)%list = true -> save_file e f c = ([], false)%list.
+Proof. exact create_fails_untouched. Qed.
+Print Assumptions C02_create_fails_untouched.
+
+(* every operation concerns f.pkglint.tmp of a changed file f (create, write, chmod to the
+   mode of f, remove); only the rename touches f itself *)
+Theorem C02_save_touches_only_changed :
+  forall e o ls, Forall (op_on_changed (changed_files ls [])) (fst (save_env e o ls)).
+Proof. exact save_env_touches_only_changed. Qed.
+Print Assumptions C02_save_touches_only_changed.
+
+(* a file is only replaced by a temporary file that got its mode first (if the original
+   could be examined): the mode of f is preserved *)
+Theorem C02_saved_with_mode :
+  forall e f c, snd (save_file e f c) = true -> e_stat_fails e f = false ->
+                fst (save_file e f c) = save_seq f c.
+Proof. exact saved_with_mode. Qed.
+Print Assumptions C02_saved_with_mode.
+
+Theorem C02_save_is_fault_free_save_env : forall o ls, save_env no_faults o ls = save o ls.
+Proof. exact save_env_no_faults. Qed.
+Print Assumptions C02_save_is_fault_free_save_env.
+
+(* the static tie: the write sites found in the source, apart from the three wrappers in
+   path.go and the test-support package intqa, are exactly the operations of the model *)
 Open Scope string_scope.
-Definition callers_of_wrappers : list (string * string * string * nat) :=
-  List.filter (fun s => match s with (_, _, callee, _) => String.prefix "CurrPath." callee end) write_sites.
+Definition modelled_write_sites : list (string * string * string * nat) :=
+  List.filter (fun s => match s with (file, _, _, _) =>
+                 negb (String.eqb file "path.go") && negb (String.eqb file "intqa/qa.go") end) write_sites.
 Theorem C02_write_sites_are_the_models :
-  callers_of_wrappers =
-  [("autofix.go", "SaveAutofixChanges", "CurrPath.Rename", 1%nat);
-   ("autofix.go", "SaveAutofixChanges", "CurrPath.WriteString", 1%nat);
+  modelled_write_sites =
+  [("autofix.go", "SaveAutofixChanges", "CurrPath.Chmod", 1%nat);
+   ("autofix.go", "SaveAutofixChanges", "CurrPath.Rename", 1%nat);
+   ("autofix.go", "SaveAutofixChanges", "os.OpenFile", 1%nat);
+   ("autofix.go", "SaveAutofixChanges", "os.Remove", 2%nat);
    ("pkglint.go", "Pkglint.checkExecutable", "CurrPath.Chmod", 1%nat)]%list.
 Proof. exact (eq_refl _). Qed.
 Print Assumptions C02_write_sites_are_the_models.
 
 (* non-vacuity: the same history (a replacement, a save) on the same freshly loaded
-   file performs no operation with --show-autofix and two (tmp + rename) with --autofix *)
+   file performs no operation with --show-autofix and the four of one save (exclusive create of the
+   temporary file, write, chmod to the original's mode, rename) with --autofix *)
 Definition ex2_file : str := [47;102]%N%list.
 Definition ex2_groups : list (list str * str) := [ ([[97;10]%N], [97]%N) ]%list.
 Definition ex2_events : list event :=
@@ -69,7 +107,7 @@ Example C02_witness :
   (exists st, run (Opts false true []) [] ex2_events (init_state ex2_file ex2_groups) = Ok st /\
      s_ops st = [] /\ List.length (s_log st) = 1%nat) /\
   (exists st, run (Opts true false []) [] ex2_events (init_state ex2_file ex2_groups) = Ok st /\
-     s_ops st = [OpWrite (ex2_file ++ tmp_suffix) [98;10]%N; OpRename (ex2_file ++ tmp_suffix) ex2_file]%list).
+     s_ops st = save_seq ex2_file [98;10]%N).
 Proof.
   split; [repeat constructor|].
   split; eexists; (split; [vm_compute; reflexivity|]); try split; vm_compute; reflexivity.
